@@ -256,6 +256,11 @@ def run_kernel(ctx, mm, sem, parser, kernel, ports, uops_of, info, inc, trace=Tr
                 us = uops_of(li)
                 if us is None or not ms:
                     continue
+                if len(ms) > 200000:
+                    # (synthetic micro-ops of several hundred thousand cycles: millions of 0.01-moves on one line; the model's replay
+                    # recurses over the list and the request would be hundreds of megabytes) -- left to the feasibility oracle
+                    ctx.count("traces_not_replayed_long_move_list")
+                    continue
                 reqs.append("balance %s %s %s %s" % (esc(str(n)), esc(S.enc_uops(us)),
                                                      esc("|".join("%d:%d:%d:%s" % (j, a, b, frac(d)) for j, a, b, d in ms)),
                                                      esc(frac(-Fraction(inc) / 2 - Fraction(1, 10**7)))))
